@@ -1,3 +1,450 @@
-(* KProofs: placeholder, to be filled in *)
+(* KProofs: theory of the reference-counting kernel core K.
+   gc reaches a stable state, never touches held references, never resurrects or alters channels it does
+   not kill, only kills unreferenced channels, preserves well-formedness; the calls preserve well-formedness. *)
 From Coq Require Import List Arith Lia Bool ZArith.
 From IPC Require Import K.
+Import ListNotations.
+
+(* ------------------------------------------------------------------------------------------ *)
+(* set_nth                                                                                      *)
+(* ------------------------------------------------------------------------------------------ *)
+Lemma length_set_nth {X} : forall (l : list X) i v, length (set_nth l i v) = length l.
+Proof. induction l as [|h t IH]; intros [|i] v; cbn; auto. Qed.
+
+Lemma nth_error_set_nth_eq {X} : forall (l : list X) i v,
+  i < length l -> nth_error (set_nth l i v) i = Some v.
+Proof.
+  induction l as [|h t IH]; intros [|i] v Hl; cbn in *; try (exfalso; lia); auto.
+  apply IH; lia.
+Qed.
+
+Lemma nth_error_set_nth_neq {X} : forall (l : list X) i j v,
+  i <> j -> nth_error (set_nth l i v) j = nth_error l j.
+Proof.
+  induction l as [|h t IH]; intros [|i] [|j] v Hn; cbn; auto; try (exfalso; lia); try (apply IH; lia).
+Qed.
+
+Lemma set_nth_none {X} : forall (l : list X) i v, nth_error l i = None -> set_nth l i v = l.
+Proof.
+  induction l as [|h t IH]; intros [|i] v H; cbn in *; auto; try discriminate.
+  f_equal; auto.
+Qed.
+
+Lemma nth_error_lt {X} : forall (l : list X) i x, nth_error l i = Some x -> i < length l.
+Proof. intros l i x H. apply nth_error_Some. congruence. Qed.
+
+Lemma get_chan_some : forall k c ch, nth_error (chans k) c = Some ch -> get_chan k c = ch.
+Proof. intros k c ch H. unfold get_chan. now apply nth_error_nth. Qed.
+
+Lemma get_chan_none : forall k c, nth_error (chans k) c = None -> get_chan k c = {| q := []; dead := true |}.
+Proof. intros k c H. unfold get_chan. apply nth_overflow. now apply nth_error_None. Qed.
+
+(* ------------------------------------------------------------------------------------------ *)
+(* reference counts after replacing one channel                                                 *)
+(* ------------------------------------------------------------------------------------------ *)
+Lemma count_flat_set_nth : forall cs i old v r, nth_error cs i = Some old ->
+  count_occ ref_dec (flat_map live_rights (set_nth cs i v)) r + count_occ ref_dec (live_rights old) r
+  = count_occ ref_dec (flat_map live_rights cs) r + count_occ ref_dec (live_rights v) r.
+Proof.
+  induction cs as [|h t IH]; intros [|i] old v r H; cbn [nth_error set_nth flat_map] in *; try discriminate.
+  - injection H as ->. rewrite !count_occ_app. lia.
+  - rewrite !count_occ_app. specialize (IH _ _ v r H). lia.
+Qed.
+
+Lemma refs_set_nth : forall k i old v h r, nth_error (chans k) i = Some old ->
+  refs {| chans := set_nth (chans k) i v; held := h |} r + count_occ ref_dec (live_rights old) r
+  = count_occ ref_dec h r + count_occ ref_dec (inflight k) r + count_occ ref_dec (live_rights v) r.
+Proof.
+  intros k i old v h r H. unfold refs, inflight. cbn [chans held].
+  pose proof (count_flat_set_nth _ _ _ v r H). lia.
+Qed.
+
+Lemma refs_kill_le : forall k i r, refs (kill k i) r <= refs k r.
+Proof.
+  intros k i r. unfold kill. destruct (nth_error (chans k) i) as [old|] eqn:E.
+  - pose proof (refs_set_nth k i old {| q := []; dead := true |} (held k) r E) as H.
+    unfold live_rights at 2 in H. cbn [dead count_occ] in H. unfold refs at 2. lia.
+  - rewrite set_nth_none by auto. unfold refs. cbn [chans held]. unfold inflight. cbn [chans]. lia.
+Qed.
+
+(* ------------------------------------------------------------------------------------------ *)
+(* find_kill                                                                                    *)
+(* ------------------------------------------------------------------------------------------ *)
+Lemma find_kill_none s : forall cs k, find_kill s k cs = None ->
+  forall i ch, nth_error cs i = Some ch -> dead ch = false -> refs s (RR (k + i)) <> 0.
+Proof.
+  induction cs as [|c cs IH]; intros k H i ch Hn Hd; [destruct i; discriminate|].
+  cbn [find_kill] in H. destruct (negb (dead c) && (refs s (RR k) =? 0)) eqn:E; [discriminate|].
+  destruct i as [|i]; cbn [nth_error] in Hn.
+  - injection Hn as ->. rewrite Hd in E. cbn [negb andb] in E. rewrite Nat.add_0_r. now apply Nat.eqb_neq.
+  - replace (k + S i) with (S k + i) by lia. eapply IH; eauto.
+Qed.
+
+Lemma find_kill_some s : forall cs k j, find_kill s k cs = Some j ->
+  exists i ch, j = k + i /\ nth_error cs i = Some ch /\ dead ch = false /\ refs s (RR j) = 0.
+Proof.
+  induction cs as [|c cs IH]; intros k j H; [discriminate|]. cbn [find_kill] in H.
+  destruct (negb (dead c) && (refs s (RR k) =? 0)) eqn:E.
+  - injection H as <-. apply andb_true_iff in E. destruct E as [E1 E2]. exists 0, c.
+    rewrite Nat.add_0_r. repeat split; auto. now apply negb_true_iff. now apply Nat.eqb_eq.
+  - apply IH in H. destruct H as (i & ch & -> & Hn & Hd & Hr). exists (S i), ch.
+    replace (k + S i) with (S k + i) by lia. auto.
+Qed.
+
+Lemma find_kill_some0 s j : find_kill s 0 (chans s) = Some j ->
+  exists ch, nth_error (chans s) j = Some ch /\ dead ch = false /\ refs s (RR j) = 0.
+Proof.
+  intros H. apply find_kill_some in H. destruct H as (i & ch & -> & Hn & Hd & Hr).
+  exists ch. auto.
+Qed.
+
+Lemma find_kill_ext k1 k2 : (forall c, refs k1 (RR c) = refs k2 (RR c)) ->
+  forall cs i, find_kill k1 i cs = find_kill k2 i cs.
+Proof. intros H; induction cs as [|c cs IH]; intros i; cbn [find_kill]; auto. rewrite H, IH. reflexivity. Qed.
+
+(* ------------------------------------------------------------------------------------------ *)
+(* gc reaches a stable state                                                                    *)
+(* ------------------------------------------------------------------------------------------ *)
+Definition live_count (cs : list chan) : nat := length (filter (fun ch => negb (dead ch)) cs).
+
+Lemma live_count_kill : forall cs i ch, nth_error cs i = Some ch -> dead ch = false ->
+  S (live_count (set_nth cs i {| q := []; dead := true |})) = live_count cs.
+Proof.
+  unfold live_count. induction cs as [|c cs IH]; intros i ch Hn Hd; [destruct i; discriminate|].
+  destruct i as [|i]; cbn [nth_error set_nth filter] in *.
+  - injection Hn as ->. rewrite Hd. cbn. reflexivity.
+  - destruct (negb (dead c)); cbn [length]; erewrite <- IH; eauto.
+Qed.
+
+Lemma live_count_le : forall cs, live_count cs <= length cs.
+Proof.
+  unfold live_count. induction cs as [|c cs IH]; cbn [filter length]; auto.
+  destruct (negb (dead c)); cbn [length]; lia.
+Qed.
+
+Lemma gc_fuel_stable : forall fuel s, live_count (chans s) <= fuel -> k_stable (gc_fuel fuel s).
+Proof.
+  induction fuel as [|f IH]; intros s Hl.
+  - cbn [gc_fuel]. intros i ch Hn Hd. exfalso.
+    assert (Hin : In ch (filter (fun c => negb (dead c)) (chans s))).
+    { apply filter_In. split; [eapply nth_error_In; eauto|now rewrite Hd]. }
+    unfold live_count in Hl. destruct (filter _ (chans s)); [contradiction|cbn [length] in Hl; lia].
+  - cbn [gc_fuel]. destruct (find_kill s 0 (chans s)) as [j|] eqn:E.
+    + apply IH. apply find_kill_some0 in E. destruct E as (ch & Hn & Hd & _). unfold kill. cbn [chans].
+      pose proof (live_count_kill _ _ _ Hn Hd). lia.
+    + intros i ch Hn Hd. exact (find_kill_none s _ 0 E i ch Hn Hd).
+Qed.
+
+Theorem gc_stable : forall k, k_stable (gc k).
+Proof. intros k. unfold gc. apply gc_fuel_stable. apply live_count_le. Qed.
+
+(* ------------------------------------------------------------------------------------------ *)
+(* gc as a sequence of kill steps                                                               *)
+(* ------------------------------------------------------------------------------------------ *)
+Inductive gcs : kst -> kst -> Prop :=
+| gcs_refl : forall k, gcs k k
+| gcs_step : forall k i ch k', nth_error (chans k) i = Some ch -> dead ch = false -> refs k (RR i) = 0 ->
+    gcs (kill k i) k' -> gcs k k'.
+
+Lemma gc_fuel_gcs : forall fuel k, gcs k (gc_fuel fuel k).
+Proof.
+  induction fuel as [|f IH]; intros k; cbn [gc_fuel]; [constructor|].
+  destruct (find_kill k 0 (chans k)) as [j|] eqn:E; [|constructor].
+  apply find_kill_some0 in E. destruct E as (ch & Hn & Hd & Hr).
+  eapply gcs_step; eauto.
+Qed.
+
+Lemma gc_gcs : forall k, gcs k (gc k).
+Proof. intros k. apply gc_fuel_gcs. Qed.
+
+Lemma gcs_held : forall k k', gcs k k' -> held k' = held k.
+Proof. induction 1; auto. Qed.
+
+Lemma gcs_length : forall k k', gcs k k' -> length (chans k') = length (chans k).
+Proof.
+  induction 1 as [|k i ch k' Hn Hd Hr Hg IH]; auto.
+  rewrite IH. unfold kill. cbn [chans]. apply length_set_nth.
+Qed.
+
+Lemma gcs_refs_le : forall k k', gcs k k' -> forall r, refs k' r <= refs k r.
+Proof.
+  induction 1 as [|k i ch k' Hn Hd Hr Hg IH]; intros r; auto.
+  specialize (IH r). pose proof (refs_kill_le k i r). lia.
+Qed.
+
+Lemma gcs_dead_unchanged : forall k k', gcs k k' ->
+  forall c ch, nth_error (chans k) c = Some ch -> dead ch = true -> nth_error (chans k') c = Some ch.
+Proof.
+  induction 1 as [|k i chi k' Hn Hd Hr Hg IH]; intros c ch Hc Hdc; auto.
+  apply IH; auto. unfold kill. cbn [chans].
+  rewrite nth_error_set_nth_neq; auto. intros ->. congruence.
+Qed.
+
+Lemma gcs_live_unchanged : forall k k', gcs k k' ->
+  forall c ch ch', nth_error (chans k) c = Some ch -> nth_error (chans k') c = Some ch' ->
+  dead ch' = false -> ch' = ch.
+Proof.
+  induction 1 as [|k i chi k' Hn Hd Hr Hg IH]; intros c ch ch' Hc Hc' Hdc; [congruence|].
+  destruct (Nat.eq_dec i c) as [->|Hne].
+  - exfalso.
+    assert (Hk : nth_error (chans (kill k c)) c = Some {| q := []; dead := true |}).
+    { unfold kill. cbn [chans]. apply nth_error_set_nth_eq. eapply nth_error_lt; eauto. }
+    pose proof (gcs_dead_unchanged _ _ Hg _ _ Hk eq_refl) as Hk'.
+    rewrite Hk' in Hc'. injection Hc' as <-. discriminate.
+  - eapply IH; eauto. unfold kill. cbn [chans]. rewrite nth_error_set_nth_neq; auto.
+Qed.
+
+Lemma gcs_killed_unreferenced : forall k k', gcs k k' ->
+  forall c ch ch', nth_error (chans k) c = Some ch -> dead ch = false ->
+  nth_error (chans k') c = Some ch' -> dead ch' = true -> refs k' (RR c) = 0 /\ q ch' = [].
+Proof.
+  induction 1 as [|k i chi k' Hn Hd Hr Hg IH]; intros c ch ch' Hc Hdc Hc' Hdc'; [congruence|].
+  destruct (Nat.eq_dec i c) as [->|Hne].
+  - assert (Hk : nth_error (chans (kill k c)) c = Some {| q := []; dead := true |}).
+    { unfold kill. cbn [chans]. apply nth_error_set_nth_eq. eapply nth_error_lt; eauto. }
+    pose proof (gcs_dead_unchanged _ _ Hg _ _ Hk eq_refl) as Hk'.
+    rewrite Hk' in Hc'. injection Hc' as <-. split; [|reflexivity].
+    pose proof (gcs_refs_le _ _ Hg (RR c)). pose proof (refs_kill_le k c (RR c)). lia.
+  - eapply IH; eauto. unfold kill. cbn [chans]. rewrite nth_error_set_nth_neq; auto.
+Qed.
+
+(* ------------------------------------------------------------------------------------------ *)
+(* the numbered theorems about gc                                                               *)
+(* ------------------------------------------------------------------------------------------ *)
+Theorem gc_held : forall k, held (gc k) = held k.
+Proof. intros k. apply gcs_held, gc_gcs. Qed.
+
+Theorem gc_length : forall k, length (chans (gc k)) = length (chans k).
+Proof. intros k. apply gcs_length, gc_gcs. Qed.
+
+(* a dead channel is literally unchanged by gc *)
+Theorem gc_dead_unchanged : forall k c ch, nth_error (chans k) c = Some ch -> dead ch = true ->
+  nth_error (chans (gc k)) c = Some ch.
+Proof. intros k. apply gcs_dead_unchanged, gc_gcs. Qed.
+
+Theorem gc_dead_mono : forall k c ch, nth_error (chans k) c = Some ch -> dead ch = true ->
+  nth_error (chans (gc k)) c = Some {| q := []; dead := true |} \/ nth_error (chans (gc k)) c = Some ch.
+Proof. intros k c ch Hn Hd. right. now apply gc_dead_unchanged. Qed.
+
+Theorem gc_dead_stays : forall k c ch, nth_error (chans k) c = Some ch -> dead ch = true ->
+  exists ch', nth_error (chans (gc k)) c = Some ch' /\ dead ch' = true.
+Proof. intros k c ch Hn Hd. exists ch. split; auto. now apply gc_dead_unchanged. Qed.
+
+Theorem gc_live_unchanged : forall k c ch ch', nth_error (chans k) c = Some ch ->
+  nth_error (chans (gc k)) c = Some ch' -> dead ch' = false -> ch' = ch.
+Proof. intros k. apply gcs_live_unchanged, gc_gcs. Qed.
+
+Theorem gc_killed_unreferenced : forall k c ch ch', nth_error (chans k) c = Some ch -> dead ch = false ->
+  nth_error (chans (gc k)) c = Some ch' -> dead ch' = true -> refs (gc k) (RR c) = 0 /\ q ch' = [].
+Proof. intros k. apply gcs_killed_unreferenced, gc_gcs. Qed.
+
+Theorem gc_refs_le : forall k r, refs (gc k) r <= refs k r.
+Proof. intros k. apply gcs_refs_le, gc_gcs. Qed.
+
+Theorem gc_wf : forall k, k_wf k -> k_wf (gc k).
+Proof.
+  intros k W c ch' Hn' Hd'.
+  destruct (nth_error (chans k) c) as [ch|] eqn:Hn.
+  - destruct (dead ch) eqn:Hd.
+    + pose proof (gc_dead_unchanged k c ch Hn Hd) as Hu. rewrite Hu in Hn'. injection Hn' as <-.
+      destruct (W c ch Hn Hd) as [Hq Hr]. split; auto.
+      pose proof (gc_refs_le k (RR c)). lia.
+    + destruct (gc_killed_unreferenced k c ch ch' Hn Hd Hn' Hd'). auto.
+  - exfalso. apply nth_error_None in Hn. apply nth_error_lt in Hn'. rewrite gc_length in Hn'. lia.
+Qed.
+
+Lemma stable_find_kill_none s : k_stable s -> forall cs k,
+  (forall i ch, nth_error cs i = Some ch -> nth_error (chans s) (k + i) = Some ch) ->
+  find_kill s k cs = None.
+Proof.
+  intros St. induction cs as [|c cs IH]; intros k Hsub; cbn [find_kill]; auto.
+  destruct (dead c) eqn:Hd; cbn [negb andb].
+  - apply IH. intros i ch Hi. replace (S k + i) with (k + S i) by lia. apply Hsub. exact Hi.
+  - assert (Hk : nth_error (chans s) (k + 0) = Some c) by (apply Hsub; reflexivity).
+    rewrite Nat.add_0_r in Hk. pose proof (St k c Hk Hd) as Hnz.
+    apply Nat.eqb_neq in Hnz. rewrite Hnz.
+    apply IH. intros i ch Hi. replace (S k + i) with (k + S i) by lia. apply Hsub. exact Hi.
+Qed.
+
+Theorem gc_fixpoint : forall k, k_stable k -> gc k = k.
+Proof.
+  intros k St. unfold gc. destruct (length (chans k)) as [|f]; cbn [gc_fuel]; auto.
+  rewrite (stable_find_kill_none k St (chans k) 0); auto.
+Qed.
+
+Lemma gc_fuel_ext : forall fuel k1 k2, chans k1 = chans k2 ->
+  (forall c, count_occ ref_dec (held k1) (RR c) = count_occ ref_dec (held k2) (RR c)) ->
+  chans (gc_fuel fuel k1) = chans (gc_fuel fuel k2).
+Proof.
+  induction fuel as [|f IH]; intros k1 k2 Hc Hh; cbn [gc_fuel]; auto.
+  assert (Hr : forall c, refs k1 (RR c) = refs k2 (RR c)).
+  { intro c. unfold refs, inflight. rewrite Hc, Hh. reflexivity. }
+  rewrite (find_kill_ext k1 k2 Hr), Hc.
+  destruct (find_kill k2 0 (chans k2)) as [j|]; auto.
+  apply IH; unfold kill; cbn [chans held]; auto. rewrite Hc. reflexivity.
+Qed.
+
+Theorem gc_chans_ext : forall k1 k2, chans k1 = chans k2 ->
+  (forall c, count_occ ref_dec (held k1) (RR c) = count_occ ref_dec (held k2) (RR c)) ->
+  chans (gc k1) = chans (gc k2).
+Proof. intros k1 k2 Hc Hh. unfold gc. rewrite Hc. now apply gc_fuel_ext. Qed.
+
+(* ------------------------------------------------------------------------------------------ *)
+(* the calls preserve well-formedness                                                           *)
+(* ------------------------------------------------------------------------------------------ *)
+Theorem k_init_wf : k_wf k_init.
+Proof. intros c ch Hn. destruct c; discriminate. Qed.
+
+Theorem k_new_wf : forall k, k_wf k -> k_wf (fst (k_new k)).
+Proof.
+  intros k W c ch Hn Hd. unfold k_new in *. cbn [fst chans held] in *.
+  destruct (Nat.lt_ge_cases c (length (chans k))) as [Hlt|Hge].
+  - rewrite nth_error_app1 in Hn by auto. destruct (W c ch Hn Hd) as [Hq Hr]. split; auto.
+    unfold refs, inflight in *. cbn [chans held].
+    rewrite flat_map_app, count_occ_app. cbn [flat_map live_rights dead q app].
+    rewrite count_occ_cons_neq by discriminate.
+    rewrite count_occ_cons_neq by (intros E; injection E; lia).
+    cbn [count_occ]. lia.
+  - exfalso. rewrite nth_error_app2 in Hn by auto.
+    destruct (c - length (chans k)) as [|n]; cbn [nth_error] in Hn.
+    + injection Hn as <-. discriminate.
+    + destruct n; discriminate.
+Qed.
+
+Theorem k_dup_wf : forall k r, k_wf k ->
+  (forall c, r = RR c -> exists ch, nth_error (chans k) c = Some ch /\ dead ch = false) ->
+  k_wf (k_dup k r).
+Proof.
+  intros k r W Hr c ch Hn Hd. unfold k_dup in *. cbn [chans] in Hn.
+  destruct (W c ch Hn Hd) as [Hq H0]. split; auto.
+  unfold refs, inflight in *. cbn [chans held].
+  destruct (ref_dec r (RR c)) as [->|Hne].
+  - destruct (Hr c eq_refl) as (ch2 & Hn2 & Hd2). congruence.
+  - rewrite count_occ_cons_neq by auto. exact H0.
+Qed.
+
+Lemma count_occ_remove_one_le : forall r l x,
+  count_occ ref_dec (remove_one r l) x <= count_occ ref_dec l x.
+Proof.
+  induction l as [|h t IH]; intros x; cbn [remove_one count_occ]; auto.
+  destruct (ref_dec r h) as [->|Hne].
+  - destruct (ref_dec h x); lia.
+  - cbn [count_occ]. specialize (IH x). destruct (ref_dec h x); lia.
+Qed.
+
+Theorem k_close_wf : forall k r, k_wf k -> k_wf (k_close k r).
+Proof.
+  intros k r W. unfold k_close. apply gc_wf.
+  intros c ch Hn Hd. cbn [chans] in Hn. destruct (W c ch Hn Hd) as [Hq H0]. split; auto.
+  unfold refs, inflight in *. cbn [chans held].
+  pose proof (count_occ_remove_one_le r (held k) (RR c)). lia.
+Qed.
+
+Lemma k_send_some : forall k c m k', k_send k c m = Some k' ->
+  exists ch, nth_error (chans k) c = Some ch /\ dead ch = false /\
+    k' = {| chans := set_nth (chans k) c {| q := q ch ++ [m]; dead := false |}; held := held k |}.
+Proof.
+  intros k c m k' H. unfold k_send in H.
+  destruct (nth_error (chans k) c) as [ch|] eqn:E.
+  - rewrite (get_chan_some _ _ _ E) in H. exists ch. destruct (dead ch); [discriminate|].
+    injection H as <-. auto.
+  - rewrite (get_chan_none _ _ E) in H. cbn [dead] in H. discriminate.
+Qed.
+
+Lemma flat_map_rights_app : forall (l1 l2 : list msg),
+  flat_map m_rights (l1 ++ l2) = flat_map m_rights l1 ++ flat_map m_rights l2.
+Proof. intros. apply flat_map_app. Qed.
+
+Theorem k_send_wf : forall k c m k', k_wf k -> k_send k c m = Some k' ->
+  (forall c', In (RR c') (m_rights m) -> exists ch, nth_error (chans k) c' = Some ch /\ dead ch = false) ->
+  k_wf k'.
+Proof.
+  intros k c m k' W Hs Hm. apply k_send_some in Hs. destruct Hs as (ch & Hn & Hd & ->).
+  intros c' ch' Hn' Hd'. cbn [chans] in Hn'.
+  destruct (Nat.eq_dec c c') as [<-|Hne].
+  - rewrite nth_error_set_nth_eq in Hn' by (eapply nth_error_lt; eauto).
+    injection Hn' as <-. discriminate.
+  - rewrite nth_error_set_nth_neq in Hn' by auto.
+    destruct (W c' ch' Hn' Hd') as [Hq H0]. split; auto.
+    pose proof (refs_set_nth k c ch {| q := q ch ++ [m]; dead := false |} (held k) (RR c') Hn) as He.
+    unfold live_rights in He. cbn [dead q] in He. rewrite Hd in He.
+    rewrite flat_map_rights_app, count_occ_app in He. cbn [flat_map] in He. rewrite app_nil_r in He.
+    assert (Hz : count_occ ref_dec (m_rights m) (RR c') = 0).
+    { apply count_occ_not_In. intros Hin. destruct (Hm c' Hin) as (ch2 & Hn2 & Hd2). congruence. }
+    unfold refs in H0. lia.
+Qed.
+
+Lemma k_recv_msg : forall k c m k', k_recv k c = KMsg m k' ->
+  exists ch rest, nth_error (chans k) c = Some ch /\ q ch = m :: rest /\
+    k' = {| chans := set_nth (chans k) c {| q := rest; dead := dead ch |}; held := m_rights m ++ held k |}.
+Proof.
+  intros k c m k' H. unfold k_recv in H.
+  destruct (nth_error (chans k) c) as [ch|] eqn:E.
+  - rewrite (get_chan_some _ _ _ E) in H. destruct (q ch) as [|m0 rest] eqn:Eq.
+    + destruct (refs k (RS c) =? 0); discriminate.
+    + injection H as <- <-. exists ch, rest. auto.
+  - rewrite (get_chan_none _ _ E) in H. cbn [q] in H. destruct (refs k (RS c) =? 0); discriminate.
+Qed.
+
+Theorem refs_recv_preserved : forall k c m k' r, k_recv k c = KMsg m k' ->
+  dead (get_chan k c) = false -> c < length (chans k) -> refs k' r = refs k r.
+Proof.
+  intros k c m k' r H Hd _. apply k_recv_msg in H. destruct H as (ch & rest & Hn & Hq & ->).
+  rewrite (get_chan_some _ _ _ Hn) in Hd. rewrite Hd.
+  pose proof (refs_set_nth k c ch {| q := rest; dead := false |} (m_rights m ++ held k) r Hn) as He.
+  unfold live_rights in He. cbn [dead q] in He. rewrite Hd, Hq in He.
+  cbn [flat_map] in He. rewrite !count_occ_app in He. unfold refs at 2. lia.
+Qed.
+
+Theorem k_recv_wf : forall k c m k', k_wf k -> k_recv k c = KMsg m k' -> k_wf k'.
+Proof.
+  intros k c m k' W H. pose proof H as H2. apply k_recv_msg in H2.
+  destruct H2 as (ch & rest & Hn & Hq & Hk').
+  assert (Hd : dead ch = false).
+  { destruct (dead ch) eqn:Hd; auto. destruct (W c ch Hn Hd) as [Hq0 _]. congruence. }
+  assert (Hrefs : forall r, refs k' r = refs k r).
+  { intros r. eapply refs_recv_preserved; eauto.
+    - now rewrite (get_chan_some _ _ _ Hn).
+    - eapply nth_error_lt; eauto. }
+  intros c' ch' Hn' Hd'. rewrite Hrefs. subst k'. cbn [chans] in Hn'.
+  destruct (Nat.eq_dec c c') as [<-|Hne].
+  - rewrite nth_error_set_nth_eq in Hn' by (eapply nth_error_lt; eauto).
+    injection Hn' as <-. cbn [dead] in Hd'. congruence.
+  - rewrite nth_error_set_nth_neq in Hn' by auto. exact (W c' ch' Hn' Hd').
+Qed.
+
+(* ------------------------------------------------------------------------------------------ *)
+(* send / dead / stable                                                                         *)
+(* ------------------------------------------------------------------------------------------ *)
+Theorem send_fails_iff_dead : forall k c m, k_send k c m = None <-> dead (get_chan k c) = true.
+Proof.
+  intros k c m. unfold k_send. destruct (dead (get_chan k c)); split; intros H; auto; discriminate.
+Qed.
+
+Theorem stable_dead_iff : forall k c ch, k_wf k -> k_stable k -> nth_error (chans k) c = Some ch ->
+  (dead ch = true <-> refs k (RR c) = 0).
+Proof.
+  intros k c ch W St Hn. split.
+  - intros Hd. destruct (W c ch Hn Hd). auto.
+  - intros H0. destruct (dead ch) eqn:Hd; auto. exfalso. exact (St c ch Hn Hd H0).
+Qed.
+
+Print Assumptions gc_stable.
+Print Assumptions gc_held.
+Print Assumptions gc_length.
+Print Assumptions gc_dead_mono.
+Print Assumptions gc_dead_stays.
+Print Assumptions gc_live_unchanged.
+Print Assumptions gc_killed_unreferenced.
+Print Assumptions gc_wf.
+Print Assumptions gc_fixpoint.
+Print Assumptions gc_chans_ext.
+Print Assumptions k_init_wf.
+Print Assumptions k_new_wf.
+Print Assumptions k_dup_wf.
+Print Assumptions k_close_wf.
+Print Assumptions k_send_wf.
+Print Assumptions k_recv_wf.
+Print Assumptions refs_recv_preserved.
+Print Assumptions send_fails_iff_dead.
+Print Assumptions stable_dead_iff.
